@@ -1,13 +1,86 @@
-"""C01: structural clauses (see DESIGN.md section 4)."""
+"""C01 edit distance: forwarding (G5/G1), mode table (G13), batch independence (G17)."""
 from __future__ import annotations
 
+import ast
+
 from rules import fwd as R_fwd
+from sa.astutil import call_name, u
+from sa.model import own_calls, own_nodes
+from . import string_common as SC
 from .common import Ctx, plumbing
 
 
 def run(ctx: Ctx):
-    plumbing(ctx, 'S1')
-    R_fwd.g5_module_pairs(ctx.pkg, ctx.res, ctx.col, only=['edit_distance', 'prefix_edit_distances'], clause='S1')
-    ctx.col.floor('g5_pairs', ctx.col.counts.get('g5_pairs', 0), 2)
-    R_fwd.g5_delegation(ctx.pkg, ctx.res, ctx.col, ['_string::edit_distance', '_string::prefix_edit_distances'], {'_string_matching'}, clause='S1')
-    return dict(explanation='plumbing clauses only (work in progress)', decided=['S1'], not_decided=[])
+    col, pkg, res = ctx.col, ctx.pkg, ctx.res
+    R_fwd.g5_module_pairs(pkg, res, col, only={"edit_distance", "prefix_edit_distances"}, clause="S1")
+    col.floor("g5_pairs", col.counts.get("g5_pairs", 0), 2)
+    SC.mode_table(ctx, ["edit_distance", "prefix_edit_distances"], "S2")
+    SC.batch_independence(ctx, "S3")
+    # normalisation divides by the reference length (not the hypothesis length), in both result forms
+    f = pkg.func("_string::_string_matching")
+    rel = f.module.relname
+    divs = [n for n in own_nodes(f.node) if isinstance(n, ast.Assign) and isinstance(n.value, ast.BinOp)
+            and isinstance(n.value.op, ast.Div) and u(n.targets[0]) == u(n.value.left)]
+    ok = len(divs) == 2 and all(u(n.value.right).startswith("ref_lens.to(") for n in divs)
+    col.ob("G16", "S2", f"{rel}::_string_matching::norm-by-reference-length", ok,
+           f"normalisation divides by {[u(n.value.right) for n in divs]}; expected the reference length in both the "
+           f"final and the per-prefix form", rel, f.line, sample=[u(n) for n in divs])
+    from sa.astutil import guards_of, parent_map
+    pm = parent_map(f.node)
+    col.ob("G16", "S2", f"{rel}::_string_matching::norm-only-on-request",
+           all(any(u(t) == "norm" and pol for t, pol in guards_of(pm, n)) for n in divs),
+           "a division by the reference length happens without norm=True", rel, f.line)
+    # lengths: include_eos adds exactly one, taken back when the sequence has no eos
+    plus = [n for n in own_nodes(f.node) if isinstance(n, ast.Assign) and u(n.value) in ("ref_lens + 1", "hyp_lens + 1")]
+    col.ob("G16", "S2", f"{rel}::_string_matching::include-eos-adds-one", sorted(u(n.targets[0]) for n in plus) == ["hyp_lens", "ref_lens"]
+           and all(any(u(t) == "include_eos" and pol for t, pol in guards_of(pm, n)) for n in plus),
+           "include_eos does not add exactly one to both the reference and the hypothesis lengths", rel, f.line)
+    plumbing(ctx, "S1")
+    return dict(
+        explanation=(
+            "Decides for C01: (S1) the ten options of EditDistance / PrefixEditDistances reach the same-named kernel "
+            "formals through Module -> functional -> kernel (the three costs are mutually transposable floats); (S2) "
+            "edit_distance / prefix_edit_distances run the kernel in the distance modes (no mistakes table, prefix "
+            "form only for the prefix variant), normalisation divides by the reference length only on request, "
+            "include_eos adds one to both lengths; (S3) the kernel's batch-wide reductions only guard warnings and "
+            "masked, idempotent updates, so a pair's result cannot depend on the other pairs. NOT decided: that the "
+            "row recurrence equals the Levenshtein minimum, independence from post-eos tokens, prefix padding values."),
+        decided=["S1", "S2", "S3"],
+        not_decided=["DP recurrence == Levenshtein distance", "post-eos independence", "prefix padding positions"],
+        assumptions=["parameter names and docstring tables as oracle"],
+    )
+
+
+def _mutants():
+    from selftest.mutate import Mutant as M
+    S = "_string.py"
+    return [
+        M("costs-swapped-in-edit-distance", S, "return _string_matching(ref, hyp, eos, include_eos, batch_first, ins_cost, del_cost, sub_cost, warn, norm=norm)",
+          "return _string_matching(ref, hyp, eos, include_eos, batch_first, del_cost, ins_cost, sub_cost, warn, norm=norm)", "G"),
+        M("module-drops-norm", S, "return edit_distance(ref, hyp, self.eos, self.include_eos, self.norm, self.batch_first, self.ins_cost, self.del_cost, self.sub_cost, self.warn)",
+          "return edit_distance(ref, hyp, self.eos, self.include_eos, False, self.batch_first, self.ins_cost, self.del_cost, self.sub_cost, self.warn)", "G5/S1"),
+        M("prefix-returns-mistakes", S, "exclude_last=exclude_last, padding=padding, return_mistakes=False)", "exclude_last=exclude_last, padding=padding, return_mistakes=True)", "kernel-mode"),
+        M("unmasked-update-under-any", S, "ref_lens = ref_lens - ref_eq_mask.to(ref_lens.dtype)", "ref_lens = ref_lens - 1", "only-masked-idempotent-updates"),
+        M("norm-by-hyp-lens", S, "er = er / ref_lens.to(er.dtype)", "er = er / hyp_lens.to(er.dtype)", "norm-by-reference-length"),
+        M("prefix-drops-padding", S, "return_prf_dsts=True, exclude_last=exclude_last, padding=padding, return_mistakes=False)", "return_prf_dsts=True, exclude_last=exclude_last, return_mistakes=False)", "G5"),
+        M("include-eos-only-ref", S, "hyp_lens = hyp_lens + 1", "hyp_lens = hyp_lens + 0", "include-eos-adds-one"),
+        M("twin:rename-mask", S, "ref_eq_mask", "ref_no_eos", "", -1, twin=True),
+    ]
+
+
+def selftest(ctx: Ctx):
+    from selftest.mutate import run_selftest
+    return run_selftest("C01", ctx.pkg.repo, _mutants(), floor=6)
+
+
+MANIFEST = dict(
+    level_text=(
+        "Static analysis (no execution): forwarding completeness of the 10 transposable options through Module -> "
+        "functional -> kernel, the mode table of the shared kernel, and a batch-mixing rule showing that the kernel's "
+        "batch-wide reductions cannot make one pair's result depend on another. These are the structural clauses of "
+        "C01 ('under the given costs', 'either layout', 'never depends on the other pairs'); equality of the vectorised "
+        "recurrence with the Levenshtein minimum quantifies over tensor values and is not decided."),
+    level_note="Trusted: python ast; formal names / docstring tables as oracle for what each public name computes.",
+    technique="static analysis: argument binding / forwarding completeness, literal mode-table agreement, batch-mixing reduction rule",
+    design_ref="DESIGN.md section 4 C01",
+)
